@@ -341,6 +341,23 @@ def searchsorted(a, v, side='left'):
     return tot
 
 
+def _binary(op):
+    def f(a, b, out=None, **k):
+        r = op(asarray(a) if isinstance(a, real_np.ndarray) else a, asarray(b) if isinstance(b, real_np.ndarray) else b)
+        if out is not None:
+            out[...] = r
+            return out
+        return r
+    return f
+
+
+multiply = _binary(lambda a, b: a * b)
+add = _binary(lambda a, b: a + b)
+subtract = _binary(lambda a, b: a - b)
+divide = _binary(lambda a, b: a / b)
+true_divide = divide
+
+
 def isscalar(x):
     return isinstance(x, (Sym, builtins.int, builtins.float, real_np.number))
 
@@ -396,7 +413,7 @@ def make_np():
                'ascontiguousarray', 'arange', 'linspace', 'cumsum', 'sum', 'sqrt', 'floor', 'ceil', 'rint', 'round_', 'absolute',
                'conj', 'conjugate', 'real', 'imag', 'sin', 'cos', 'sinc', 'exp', 'log10', 'log', 'isnan', 'isfinite', 'minimum',
                'maximum', 'isclose', 'concatenate', 'diff', 'all', 'any', 'argsort', 'searchsorted', 'isscalar', 'shape',
-               'dtype', 'issubdtype', 'may_share_memory', 'atleast_1d', 'where']:
+               'dtype', 'issubdtype', 'may_share_memory', 'atleast_1d', 'where', 'multiply', 'add', 'subtract', 'divide', 'true_divide']:
         d[nm] = g[nm]
     d['abs'] = absolute
     d['round'] = rint
